@@ -358,6 +358,16 @@ def thunks():
     reg("sliced_wasserstein_M131", lambda P: persim.sliced_wasserstein(P["A8"], P["B8"], M=131), ["A8", "B8"], forms=bf)
     reg("gromov_hausdorff_order_zero", lambda P: (np.random.seed(5), persim.gromov_hausdorff(P["CY6"], P["ST5"], mapping_sample_size_order=P["order0"]))[1], ["CY6", "ST5", "order0"], forms=("list", "int"))
 
+    # ---- LONG-LIVED objects shared by successive calls (one imager / transformer / landscape per pool): a
+    # method that rescales, caches or otherwise edits the object's own state shows as another result
+    reg("shared_imager_transform", lambda P: P["IM"].transform(P["A"]), ["IM", "A"], forms=af)
+    reg("shared_imager_transform_collection_n_jobs", lambda P: P["IM"].transform([P["A"], P["C"]], n_jobs=1), ["IM", "A", "C"], forms=af)
+    reg("shared_imager_scalar_sigma_noskew", lambda P: P["IMS"].transform(P["B"], skew=False), ["IMS", "B"], forms=af)
+    reg("shared_imager_uniform", lambda P: P["IMU"].transform([P["B"], P["A"]]), ["IMU", "A", "B"], forms=af)
+    reg("shared_landscaper_transform", lambda P: P["LSF"].transform([P["A8"], P["B"]]), ["LSF", "A8", "B"], forms=af)
+    reg("shared_exact_landscape_ops", lambda P: [P["PLX"].p_norm(2), P["PLX"][0], (2 * P["PLX"] - P["PLX"] / 3).sup_norm(), vectorize(P["PLX"], num_steps=6), P["PLX"]], ["PLX"], forms=("f64",))
+    reg("shared_approx_landscape_ops", lambda P: [P["PLA"].p_norm(3), (P["PLA"] + P["PLA"]).values, snap_pl([P["PLA"], P["PLA"]], num_steps=5), average_approx([P["PLA"], P["PLA"] * 3]), P["PLA"]], ["PLA"], forms=("f64",))
+
     # ---- kernels and weights called directly --------------------------------------------------
     from persim import images_kernels as ik, images_weights as iw
 
@@ -448,6 +458,30 @@ def variant_forms(variant, forms):
     return [f for f in forms if not (f == "int" and variant == 2)]
 
 
+def _imager(**kw):
+    from persim import PersistenceImager
+
+    return PersistenceImager(pixel_size=0.5, birth_range=(0.0, 3.0), pers_range=(0.0, 3.0), **kw)
+
+
+def _landscaper(Da, Db):
+    from persim import PersistenceLandscaper
+
+    return PersistenceLandscaper(hom_deg=0, num_steps=9).fit([np.array(Da, dtype=float), np.array(Db, dtype=float)])
+
+
+def _exact(D):
+    from persim import PersLandscapeExact
+
+    return PersLandscapeExact(dgms=[np.array(D, dtype=float)], hom_deg=0)
+
+
+def _approx(D):
+    from persim import PersLandscapeApprox
+
+    return PersLandscapeApprox(dgms=[np.array(D, dtype=float)], hom_deg=0, num_steps=11)
+
+
 def make_pool(f, variant=0):
     """Shared argument objects; diagrams in container form f (graphs: list or int array)."""
     gf = "list" if f == "list" else "int"
@@ -468,6 +502,9 @@ def make_pool(f, variant=0):
         "M": np.array([[0.0, 0.0, 1.0], [1.0, 1.0, 2.0], [2.0, -1.0, 0.5]]),
         "IMG": np.arange(36, dtype=float).reshape(6, 6) / 36.0,
         "A8": form(D8A, dform), "B8": form(D8B, dform),
+        "IM": _imager(kernel_params={"sigma": [[0.25, 0.0], [0.0, 0.25]]}), "IMS": _imager(kernel_params={"sigma": 0.09}),
+        "IMU": _imager(kernel="uniform", kernel_params={"width": 1.0, "height": 0.5}),
+        "LSF": _landscaper(D8A, D2), "PLX": _exact(D3), "PLA": _approx(D3),
         "X": np.array([-1.0, 0.0, 0.5, 1.0, 2.5]), "Y": np.array([0.25, 1.0, 0.5, 2.0, 1.5]),
         "mu": np.array([0.5, 1.0]), "sigma": np.array([[1.0, 0.6], [0.6, 2.0]]),
     }
